@@ -46,6 +46,42 @@ def strip_shell_comments(text: str) -> str:
     return "".join(result)
 
 
+def strip_comments(text: str) -> str:
+    """Blank out comments (# ..., // ..., /* ... */) outside strings and rich text blocks.
+
+    Comments must be inert for the macro machinery too: a comment that mentions
+    ${name} is not a macro call, and a commented-out 'macro name [...]' is not a
+    definition. Line breaks are kept so that line numbers in messages stay valid.
+    """
+    result = []
+    i = 0
+    n = len(text)
+    while i < n:
+        ch = text[i]
+        if ch in "\"'":
+            j = text.find(ch, i + 1)
+            j = n - 1 if j < 0 else j
+            result.append(text[i : j + 1])
+            i = j + 1
+        elif text.startswith("-8<-", i):
+            j = text.find("->8-", i + 4)
+            j = n if j < 0 else j + 4
+            result.append(text[i:j])
+            i = j
+        elif ch == "#" or text.startswith("//", i):
+            j = text.find("\n", i)
+            i = n if j < 0 else j
+        elif text.startswith("/*", i):
+            j = text.find("*/", i + 2)
+            j = n if j < 0 else j + 2
+            result.append("\n" * text.count("\n", i, j))
+            i = j
+        else:
+            result.append(ch)
+            i += 1
+    return "".join(result)
+
+
 class MacroProcessor:
     """Preprocesses TJP content to expand macros.
 
@@ -75,6 +111,9 @@ class MacroProcessor:
         Returns:
             The processed content with macros expanded
         """
+        # Comments are not part of the text the macro machinery works on
+        content = strip_comments(content)
+
         # First pass: extract macro definitions
         content = self._extract_macros(content)
 
